@@ -374,4 +374,205 @@ theorem call_frame (c : TCtx) (n : Net) (m : Mem) :
   · simp [frame, b1, b2, b3]
   · simp [frame, c1, c2, c3]
 
+/-! ### C07.iii — traffic routing converges (no oscillation, bounded number of rounds) -/
+
+/-- the network after one more `DoTrafficRouting` round (the grace memory plays no part in this call) -/
+def stepNet (c : TCtx) (n : Net) : Net := (doTrafficRouting c n Mem.empty).net
+
+/-- `k` further rounds -/
+def iterNet (c : TCtx) : Nat → Net → Net
+  | 0, n => n
+  | k + 1, n => iterNet c k (stepNet c n)
+
+/-- the Services are in place: the Service part of the call finds nothing to do -/
+def SvcOk (c : TCtx) (n : Net) : Prop := svcStep c n = some (n, [])
+
+/-- what "Services in place" means -/
+theorem svcOk_iff (c : TCtx) (n : Net) :
+    SvcOk c n ↔ (c.disableGen = true ∨
+      (c.stableRev ≠ "" ∧ c.canaryRev ≠ "" ∧ n.canarySvc = some c.canaryRev ∧ n.stableSel.getD "" = c.stableRev)) := by
+  unfold SvcOk svcStep
+  by_cases hd : c.disableGen = true
+  · simp [hd]
+  · by_cases hs : c.stableRev = ""
+    · simp [hd, hs]
+    · by_cases hc : c.canaryRev = ""
+      · simp [hd, hs, hc]
+      · simp only [hd, hs, hc, or_self, if_false, Bool.false_eq_true, false_or, ne_eq, not_false_eq_true, true_and]
+        cases hcs : n.canarySvc with
+        | none =>
+          dsimp only
+          by_cases hst : n.stableSel.getD "" = c.stableRev <;> simp [hst]
+        | some r =>
+          dsimp only
+          by_cases hr : r = c.canaryRev
+          · subst hr
+            by_cases hst : n.stableSel.getD "" = c.stableRev
+            · simp [hst]
+            · simp [hst]
+          · by_cases hst : n.stableSel.getD "" = c.stableRev <;> simp [hr, hst]
+
+/-- the Service part always leaves the Services in place -/
+theorem svcStep_idem (c : TCtx) (n n2 : Net) (ws : List String) (h : svcStep c n = some (n2, ws)) : SvcOk c n2 := by
+  rw [svcOk_iff]
+  unfold svcStep at h
+  by_cases hd : c.disableGen = true
+  · exact Or.inl hd
+  · right
+    rw [if_neg hd] at h
+    by_cases hr : c.stableRev = "" ∨ c.canaryRev = ""
+    · rw [if_pos hr] at h; cases h
+    · rw [if_neg hr] at h
+      have hs : c.stableRev ≠ "" := fun he => hr (Or.inl he)
+      have hc : c.canaryRev ≠ "" := fun he => hr (Or.inr he)
+      refine ⟨hs, hc, ?_⟩
+      dsimp only at h
+      simp only [Option.some.injEq, Prod.mk.injEq] at h
+      obtain ⟨hn, _⟩ := h
+      subst hn
+      cases hcs : n.canarySvc with
+      | none =>
+        dsimp only
+        by_cases hst : n.stableSel.getD "" = c.stableRev
+        · simp [hst]
+        · simp [hst, hs]
+      | some r =>
+        dsimp only
+        by_cases hrr : r = c.canaryRev
+        · subst hrr
+          by_cases hst : n.stableSel.getD "" = c.stableRev
+          · simp [hst, hcs]
+          · simp [hst, hcs, hs]
+        · by_cases hst : n.stableSel.getD "" = c.stableRev
+          · simp [hrr, hst]
+          · simp [hrr, hst, hs]
+
+theorem svcOk_frame (c : TCtx) (n : Net) (ci : Option Nat) (h : SvcOk c n) : SvcOk c { n with canaryIng := ci } := by
+  rw [svcOk_iff] at h ⊢
+  exact h
+
+/-- with the Services in place the call is the provider step alone -/
+theorem doTR_of_svcOk (c : TCtx) (n : Net) (m : Mem) (w : Nat) (href : c.hasRef = true) (hw : c.weight = some w)
+    (hex : n.stableExists = true) (hl : c.lastUpdate ≠ .fresh) (hok : SvcOk c n) :
+    doTrafficRouting c n m = routeStep n m w := by
+  unfold doTrafficRouting
+  unfold SvcOk at hok
+  simp only [href, not_true_eq_false, if_false, hw, hex, hl, hok]
+  simp
+
+/-- one round always leaves the Services in place (and the stable Service / Ingress where they were) -/
+theorem stepNet_svcOk (c : TCtx) (n : Net) (w : Nat) (href : c.hasRef = true) (hw : c.weight = some w)
+    (hex : n.stableExists = true) (hl : c.lastUpdate ≠ .fresh) (hrev : c.disableGen = true ∨ (c.stableRev ≠ "" ∧ c.canaryRev ≠ "")) :
+    SvcOk c (stepNet c n) ∧ (stepNet c n).stableExists = true ∧ (stepNet c n).stableIngress = n.stableIngress := by
+  unfold stepNet doTrafficRouting
+  simp only [href, not_true_eq_false, if_false, hw, hex, hl]
+  cases hs : svcStep c n with
+  | none =>
+    exfalso
+    unfold svcStep at hs
+    rcases hrev with hd | ⟨h1, h2⟩
+    · simp [hd] at hs
+    · by_cases hd : c.disableGen = true
+      · simp [hd] at hs
+      · simp [hd, h1, h2] at hs
+  | some r =>
+    obtain ⟨n2, ws⟩ := r
+    have hok2 := svcStep_idem c n n2 ws hs
+    obtain ⟨f1, f2, f3⟩ := svcStep_frame c n n2 ws hs
+    dsimp only
+    by_cases hws : ws = []
+    · subst hws
+      have hn2 : n2 = n := (svcStep_nowrite c n n2 hs).1
+      subst hn2
+      simp only [ne_eq, not_true_eq_false, if_false]
+      unfold routeStep
+      dsimp only
+      split
+      · exact ⟨hok2, hex, rfl⟩
+      · exact ⟨svcOk_frame c n2 _ hok2, hex, rfl⟩
+    · simp only [ne_eq, hws, not_false_eq_true, if_true]
+      exact ⟨hok2, by rw [f2]; exact hex, f3⟩
+
+/-- the provider step converges in at most three rounds: create the canary Ingress, set the weight, verify -/
+theorem routeStep_converges (n : Net) (m : Mem) (w : Nat) (hing : n.stableIngress = true) :
+    (routeStep n m w).done = true ∨
+    (routeStep (routeStep n m w).net m w).done = true ∨
+    (routeStep (routeStep (routeStep n m w).net m w).net m w).done = true := by
+  unfold routeStep ensureRoutes
+  cases hci : n.canaryIng with
+  | none =>
+    by_cases hw0 : w = 0
+    · left; simp [hw0]
+    · right
+      by_cases h0 : (0 : Nat) = w
+      · exact absurd h0.symm hw0
+      · right
+        simp [hw0, hing, h0]
+  | some x =>
+    by_cases hx : x = w
+    · left; simp [hx]
+    · right; left
+      simp [hx]
+
+/-- **C07.iii (traffic routing converges)** — for every routing context with a route to manage, every network
+    state in which the stable Service and Ingress exist, and every grace memory: if the caller comes back
+    whenever its grace period has elapsed, `DoTrafficRouting` reports *done* after at most **four** further
+    rounds — there is no state from which it keeps rewriting the network. -/
+theorem doTR_converges (c : TCtx) (n : Net) (m : Mem) (w : Nat) (href : c.hasRef = true) (hw : c.weight = some w)
+    (hex : n.stableExists = true) (hing : n.stableIngress = true) (hl : c.lastUpdate ≠ .fresh)
+    (hrev : c.disableGen = true ∨ (c.stableRev ≠ "" ∧ c.canaryRev ≠ "")) :
+    ∃ k, k ≤ 3 ∧ (doTrafficRouting c (iterNet c (k + 1) n) m).done = true := by
+  obtain ⟨ok1, ex1, ing1⟩ := stepNet_svcOk c n w href hw hex hl hrev
+  rw [hing] at ing1
+  -- from the first round on, each round is the provider step
+  have hstep : ∀ n' : Net, SvcOk c n' → n'.stableExists = true → stepNet c n' = (routeStep n' Mem.empty w).net := by
+    intro n' hk he
+    unfold stepNet
+    rw [doTR_of_svcOk c n' Mem.empty w href hw he hl hk]
+  have hkeep : ∀ n' : Net, SvcOk c n' → n'.stableExists = true →
+      SvcOk c (routeStep n' Mem.empty w).net ∧ (routeStep n' Mem.empty w).net.stableExists = true ∧
+      (routeStep n' Mem.empty w).net.stableIngress = n'.stableIngress := by
+    intro n' hk he
+    have := stepNet_svcOk c n' w href hw he hl hrev
+    rw [hstep n' hk he] at this
+    exact this
+  have hnet_m : ∀ (n' : Net) (m1 m2 : Mem), (routeStep n' m1 w).net = (routeStep n' m2 w).net ∧
+      (routeStep n' m1 w).done = (routeStep n' m2 w).done := by
+    intro n' m1 m2; unfold routeStep; dsimp only; split <;> exact ⟨rfl, rfl⟩
+  generalize hn1 : stepNet c n = n1 at ok1 ex1 ing1
+  obtain ⟨ok2, ex2, ing2⟩ := hkeep n1 ok1 ex1
+  obtain ⟨ok3, ex3, ing3⟩ := hkeep _ ok2 ex2
+  rcases routeStep_converges n1 Mem.empty w ing1 with h | h | h
+  · refine ⟨0, by omega, ?_⟩
+    show (doTrafficRouting c (stepNet c n) m).done = true
+    rw [hn1, doTR_of_svcOk c n1 m w href hw ex1 hl ok1, (hnet_m n1 m Mem.empty).2]; exact h
+  · refine ⟨1, by omega, ?_⟩
+    show (doTrafficRouting c (stepNet c (stepNet c n)) m).done = true
+    rw [hn1, hstep n1 ok1 ex1, doTR_of_svcOk c _ m w href hw ex2 hl ok2, (hnet_m _ m Mem.empty).2]; exact h
+  · refine ⟨2, by omega, ?_⟩
+    show (doTrafficRouting c (stepNet c (stepNet c (stepNet c n))) m).done = true
+    rw [hn1, hstep n1 ok1 ex1, hstep _ ok2 ex2, doTR_of_svcOk c _ m w href hw ex3 hl ok3, (hnet_m _ m Mem.empty).2]; exact h
+
+/-! ### non-vacuity (tests on literals: the hypotheses of the theorems above are met by ordinary states) -/
+
+def exCtx : TCtx :=
+  { hasRef := true, grace := 3, weight := some 20, disableGen := false, stableRev := "v1", canaryRev := "v2",
+    lastUpdate := .elapsed }
+def exRouted : Net :=
+  { stableExists := true, stableSel := some "v1", canarySvc := some "v2", stableIngress := true, canaryIng := some 20 }
+def exFresh : Net :=
+  { stableExists := true, stableSel := none, canarySvc := none, stableIngress := true, canaryIng := none }
+
+/-- a routed step reports done (hypothesis of `doTR_done` / `done_is_fixed_point`) -/
+example : (doTrafficRouting exCtx exRouted Mem.empty).done = true := by decide
+/-- from a fresh network the first call is not done and creates the canary Service before any route -/
+example : (doTrafficRouting exCtx exFresh Mem.empty).done = false ∧
+    (doTrafficRouting exCtx exFresh Mem.empty).net.canaryIng = none := by decide
+/-- finalising a routed network takes several rounds: the first one only un-pins the stable Service -/
+example : (finalisingTrafficRouting exCtx exRouted Mem.empty).done = false ∧
+    (finalisingTrafficRouting exCtx exRouted Mem.empty).writes = ["unpinStable"] := by decide
+/-- with the grace period off everything is restored in one call, in the proved order -/
+example : (finalisingTrafficRouting { exCtx with grace := 0 } exRouted Mem.empty).writes =
+    ["unpinStable", "deleteCanaryIngress", "deleteCanarySvc"] := by decide
+
 end RV.Props.Traffic
